@@ -206,6 +206,62 @@ Proof.
     apply forallb_forall. intros c Hin. rewrite Forall_forall in Hc. exact (proj2 (Hc c Hin)).
 Qed.
 
+(* ---------- histories: identifiers over any sequence of constructions ---------- *)
+(* One construction = one 16-byte read of the random source (tagged with whatever the caller likes: the message kind,
+   the service-provider instance, the goroutine). The identifiers of a history repeat only where the source's free bits
+   repeat; so with pairwise distinct free bits, no identifier repeats, for a history of any length. *)
+Definition read_ok (b : list N) : Prop := List.length b = 16%nat /\ Forall (fun x => x < 256) b.
+
+Lemma message_id_inj_uuid b b' : message_id b = message_id b' -> uuid_of_bytes b = uuid_of_bytes b'.
+Proof. unfold message_id. cbn [append]. intros E. inversion E. reflexivity. Qed.
+
+Lemma message_id_injective_on_free_bits b b' :
+  read_ok b -> read_ok b' -> message_id b = message_id b' -> free_bits b = free_bits b'.
+Proof.
+  intros [Hl Ha] [Hl' Ha'] E. apply uuid_injective_on_free_bits; try assumption.
+  apply message_id_inj_uuid. exact E.
+Qed.
+
+Lemma history_ids_nodup (A : Type) (h : list (A * list N)) :
+  Forall (fun e => read_ok (snd e)) h ->
+  NoDup (map (fun e => free_bits (snd e)) h) ->
+  NoDup (map (fun e => message_id (snd e)) h).
+Proof.
+  induction h as [|e h IH]; intros Hok Hnd; cbn [map] in *; [constructor|].
+  inversion Hok as [|? ? Hoke Hokh]; subst. inversion Hnd as [|? ? Hnin Hndh]; subst.
+  constructor; [|apply IH; assumption].
+  intros Hin. apply Hnin. apply in_map_iff in Hin. destruct Hin as [e' [E Hin']].
+  apply in_map_iff. exists e'. split; [|exact Hin'].
+  rewrite Forall_forall in Hokh.
+  apply message_id_injective_on_free_bits; [apply Hokh; exact Hin' | exact Hoke | exact E].
+Qed.
+
+(* the contrapositive with the witnesses: two positions of a history carrying the same identifier read the same
+   122 free bits from the source *)
+Lemma history_repeat_is_source_collision (A : Type) (h : list (A * list N)) (i j : nat) (ei ej : A * list N) :
+  Forall (fun e => read_ok (snd e)) h ->
+  nth_error h i = Some ei -> nth_error h j = Some ej ->
+  message_id (snd ei) = message_id (snd ej) -> free_bits (snd ei) = free_bits (snd ej).
+Proof.
+  intros Hok Hi Hj E. rewrite Forall_forall in Hok.
+  apply message_id_injective_on_free_bits; [apply Hok; eapply nth_error_In; exact Hi | apply Hok; eapply nth_error_In; exact Hj | exact E].
+Qed.
+
+(* a history where the premises hold and the conclusion is not trivial: three constructions, two of which differ only in
+   a free bit of byte 6, one only in a FORCED bit of byte 6 (that one collides, as it must) *)
+Definition hist_b0 : list N := [1;2;3;4;5;6;7;8;9;10;11;12;13;14;15;16].
+Definition hist_b1 : list N := [1;2;3;4;5;6;6;8;9;10;11;12;13;14;15;16].
+Definition hist_b2 : list N := [1;2;3;4;5;6;135;8;9;10;11;12;13;14;15;16].
+Lemma history_example :
+  NoDup (map (fun e => message_id (snd e)) [(0%nat, hist_b0); (1%nat, hist_b1)]) /\
+  message_id hist_b0 = message_id hist_b2 /\ free_bits hist_b0 = free_bits hist_b2 /\ hist_b0 <> hist_b2.
+Proof.
+  split; [|split; [vm_compute; reflexivity|split; [vm_compute; reflexivity|discriminate]]].
+  apply (history_ids_nodup nat).
+  - repeat constructor; vm_compute; reflexivity.
+  - vm_compute. repeat constructor; cbn [In]; intros H; repeat (destruct H as [H|H]; [discriminate H|]); exact H.
+Qed.
+
 (* ---------- the random source (facts gen/ extracted from uuid/uuid.go) ---------- *)
 Lemma random_source_is_crypto_rand :
   In "crypto/rand" uuid_imports /\
